@@ -31,15 +31,24 @@ def main():
         except Exception as e:  # noqa
             errors.append((name, repr(e)[:400]))
 
+    from . import main as M
+    kfs = [k for k in core.known_findings() if k.get("kind") == "known"]
+    kf_clauses = {c for k in kfs for c in k.get("signature", {}).get("clauses", [])}
+
     def traces(name):
         b, d = core.trace_batch(name, a.tier)
+        cache = {}
         for v in b["verdicts"]:
             if v["kind"] == "L1":
-                tag = b["meta"][v["gid"]]["tag"]
-                if tag in ("tier", "overlap") and v["what"] in ("C05.completes", "C05.bound", "C07.bounds"):
-                    continue     # known-finding region
-                if tag == "adv" and v["what"].startswith("C05."):
-                    continue
+                if v["what"] in kf_clauses:
+                    # listed known finding? (same signature predicates as the checks)
+                    key = (v["gid"], v["what"])
+                    if key not in cache:
+                        tr = core.load_trace(d, b["meta"][v["gid"]])
+                        pid = v["what"].split(".")[0]
+                        cache[key] = M.match_known([k for k in kfs if k["property"] == pid], tr, [v["what"]]) is not None
+                    if cache[key]:
+                        continue
                 res[v["what"].split(".")[0]][name + ":" + v["what"]] += 1
             elif v["kind"] in ("DRIFT", "PROPOSAL"):
                 drift[name + ":" + v["what"][:40]] += 1
